@@ -65,10 +65,13 @@ func build(codes []string, tag string) []Op {
 
 // SpaceA calls f for every single-transaction program: all sequences of length <= maxLen over
 // FlatAlphabet ∪ {Call(sub)} containing at most maxCalls Call ops, where sub ranges over all sequences
-// of length <= subLen over FlatAlphabet (Fail is an ordinary letter, so it occurs at every position,
+// of length <= subLen over subAlphabet (nil = FlatAlphabet) (Fail is an ordinary letter, so it occurs at every position,
 // also inside the callee, after writes, after MerkleVal). Returns false from f to stop.
-func SpaceA(maxLen, subLen, maxCalls int, f func(p []Op) bool) {
-	subs := seqs(FlatAlphabet, subLen)
+func SpaceA(maxLen, subLen, maxCalls int, subAlphabet []string, f func(p []Op) bool) {
+	if subAlphabet == nil {
+		subAlphabet = FlatAlphabet
+	}
+	subs := seqs(subAlphabet, subLen)
 	var rec func(prefix []Op, calls int) bool
 	rec = func(prefix []Op, calls int) bool {
 		if !f(prefix) {
